@@ -26,6 +26,26 @@ NEEDS = {
  "C19a": "more than one page of trios with the trio at a page boundary created with its assets in non-ascending order",
  "C19b": "re-submitting AddSwapRoutes for an already stored (offer, ask) key with a hop through an unregistered pair",
  "C20a": "epoch creation at least two full durations late in the fee distributor",
+ "C01a": "deposit -> swaps accruing > 1000 protocol fees -> CollectProtocolFees -> another deposit (the two ledgers coincide until the first collection)",
+ "C01b": "a native offer at pool index 1 (native/native pair or [cw20, native]) whose declared amount is not backed by the attached funds",
+ "C02a": "large reserves: offer_pool + offer > 1e18 with a tiny non-zero remainder (results unchanged for the reserve sizes used in tests)",
+ "C02b": "offer_pool + offer >= 2^128 while all results still fit in 128 bits",
+ "C03a": "a stableswap pair with unequal decimals, offering the second asset, with a belief price given",
+ "C03b": "a stableswap pool that is off the peg at deposit time",
+ "C04a": "3-pool swap in the single direction second asset -> third asset with unequal first/second reserves",
+ "C04b": "an earlier ramp up (so initial_amp < current amp) followed by a ramp down to a target between initial/10 and current/10",
+ "C05a": "a borrower contract depositing into the same vault from inside its loan callback while exactly one loan is open",
+ "C05b": "a vault over a cw20 asset and a non-first deposit",
+ "C09a": "see notes.md",
+ "C09b": "see notes.md",
+ "C10a": "a fee asset routed through a pool thinner than the fee balance, so simulation succeeds but the real swap fails on max spread",
+ "C10b": "take rate switched off while a non-zero rate and a DAO address remain stored",
+ "C11a": "Withdraw executed within the unbonding window of a closed position",
+ "C11b": "a cw20 pool asset deposited through the frontend helper with an allowance strictly greater than the deposit",
+ "C13a": "exactly 100 unclaimed epochs on a still-active flow",
+ "C13b": "OpenPosition with receiver: Some(other) while the sender already holds weight",
+ "C15a": "`to` set to a third party that already holds more of the final asset than the sender",
+ "C15b": "a belief price given, a swap whose computed pool spread is 0, and a pool price worse than the belief price by more than max_spread",
  "C20b": "a second CreateEpoch on the epoch manager before the current epoch expired, after one legitimate creation",
 }
 
